@@ -74,6 +74,11 @@ def errClass : ErrKind → String
 def caught (k : ErrKind) : Caught :=
   { name := errClass k, instanceOf := [errClass k, "Error"], hasMessage := true }
 
+/-- §15.11.7.2 / the raising clauses: the [[Prototype]] of an error the engine raises is "the original NativeError
+    prototype object, the one that is the initial value of NativeError.prototype" – whatever the global name is
+    bound to by now (reassigned to another function or to a non-function, or deleted) -/
+def caughtAfter (_h : Rebind) (k : ErrKind) : Caught := caught k
+
 /-! ## text of an uncaught exception -/
 
 /-- §15.11.4.4 Error.prototype.toString -/
